@@ -308,7 +308,7 @@ class LibMixin:
         has_yield = any(isinstance(n, (ast.Yield, ast.YieldFrom)) for n in _walk_own(node))
         if has_yield and yield_hook is None:
             raise Unsupported(f"generator function {qual}")
-        for d in decos:
+        for d in ([] if func.decorated else decos):
             base = d.split("(")[0]
             if base in ("staticmethod", "classmethod", "contextmanager", "property", "abstractmethod", "overload", "wraps",
                         "functools.wraps", "override"):
@@ -419,9 +419,14 @@ class LibMixin:
                     return ("const", mod, (m, c), stmt.value)
         return None
 
-    def get_attr(self, st, v, name, node=None):
+    def get_attr(self, st, v, name, node=None, raw=False):
         if isinstance(v, VRef):
             h = st.deref(v)
+            if isinstance(h, HObj) and not raw and h.cls[0].startswith("liquid"):
+                ga = load.find_method(h.cls[0], h.cls[1], "__getattribute__")
+                if ga is not None:
+                    f = VFunc(ga[2], load.get_module(ga[0]), None, f"{ga[1]}.__getattribute__", (ga[0], ga[1]))
+                    return self.call_function(st, f, [const(name)], {}, self_val=v)
             if isinstance(h, HObj):
                 if name in h.fields:
                     return [(st, h.fields[name])]
@@ -504,6 +509,8 @@ class LibMixin:
         if isinstance(v, VExcClass) and name == "__name__":
             return [(st, const(v.name))]
         if isinstance(v, VNone):
+            if name == "__class__":
+                return [(st, VConst(("classof", v)))]
             return [self.raised(st, "AttributeError", f"'NoneType' object has no attribute '{name}'")]
         if isinstance(v, (VInt, VBool, VFlt)):
             if name == "__class__":
@@ -514,7 +521,10 @@ class LibMixin:
         if isinstance(v, VSeq):
             return [(st, VBuiltin(f"seq.{name}", v))]
         if isinstance(v, VFunc):
-            return self.opaque_call(st, f"funcattr.{name}", [], pure=True)
+            attrs = self.__dict__.setdefault("_func_attrs", {})
+            if (id(v.node), name) in attrs:
+                return [(st, attrs[(id(v.node), name)])]
+            return [self.raised(st, "AttributeError", f"function has no attribute {name}")]
         raise Unsupported(f"attribute {name} of {type(v).__name__}")
 
     def set_attr(self, st, obj, name, val):
@@ -523,7 +533,10 @@ class LibMixin:
             h.fields[name] = val
             st.log.append(("setattr", obj.addr, name))
             return [(st, None)]
-        if isinstance(obj, (VU, VOpaque, VFunc)):
+        if isinstance(obj, VFunc):
+            self.__dict__.setdefault("_func_attrs", {})[(id(obj.node), name)] = val
+            return [(st, None)]
+        if isinstance(obj, (VU, VOpaque)):
             st.log.append(("setattr-opaque", name))
             st.world += 1
             return [(st, None)]
